@@ -1,6 +1,6 @@
 import XvcPipeline.Graph
 /-!
-# The cycle test: Kahn's algorithm succeeds exactly on graphs that admit a rank function
+# The cycle test: Kahn's algorithm succeeds exactly on graphs that have a rank function
 -/
 namespace Sched
 
